@@ -30,6 +30,12 @@ CLAIMED = {
          'before any failing return that follows an acquisition; no local allocation reaches a function exit unreleased; failed opens pass psf_close and set sf_errno; temp files are '
          'fclosed and removed. Leaks that depend on histories of API calls are not decided.',
          'ownership dataflow + control-dependence (guarded release no-skip) + dominance rules over clang CFG'),
+ 'C17': ('DESIGN.md §4 C17',
+         'For sf_command and every callee that receives the caller buffer: each access through data (deref, member, subscript, memcpy/memset/snprintf, helper calls, '
+         'container command hooks) has a byte extent covered by the facts the interval/upper-bound analysis derives for datasize at that point, and is dominated by data != NULL; '
+         'strlen of the buffer only after a bounded snprintf with datasize >= 1; every query command id explored by partial evaluation writes no handle state except the error field; '
+         'no path falls off without a return value. Decided for datasize >= 0 as the property states.',
+         'guarded-access analysis: demand-driven interval + symbolic (linear / division-form) bounds over clang CFG, interprocedural with entry facts; partial evaluation for purity'),
 }
 REASONS = {}
 DEFAULT_REASON = 'check not built yet (work in progress); see DESIGN.md'
